@@ -256,7 +256,7 @@ class Executor:
             with open(self.errpath, "rb") as f:
                 f.seek(0, 2)
                 sz = f.tell()
-                f.seek(max(0, sz - 6000))
+                f.seek(max(0, sz - 24000))
                 res.crash["stderr"] = f.read().decode("latin-1", "replace")
         except Exception:
             res.crash["stderr"] = ""
@@ -303,7 +303,7 @@ def sanitizer_key(stderr):
     """kind + top frame inside /repo of a sanitizer report (the call-site key of a finding)."""
     import re
     kind = "unknown"
-    m = re.search(r"ERROR: AddressSanitizer: ([\w-]+)", stderr)
+    m = re.search(r"ERROR: AddressSanitizer: ([\w-]+)", stderr) or re.search(r"SUMMARY: AddressSanitizer: ([\w-]+)", stderr)
     if m:
         kind = "asan:" + m.group(1)
     else:
@@ -311,7 +311,7 @@ def sanitizer_key(stderr):
         if m:
             kind = "ubsan:" + re.sub(r"0x[0-9a-f]+|\d+", "N", m.group(1)).strip()
     frame = "?"
-    for m in re.finditer(r"#\d+ 0x[0-9a-f]+ in (\S+) (/repo/[^\s:]+)", stderr):
+    for m in re.finditer(r"#\d+ 0x[0-9a-f]+ in ([^\n]+?) (/repo/[^\s:]+)", stderr):
         frame = os.path.basename(m.group(2)) + ":" + m.group(1).split("(")[0]
         break
     return kind + "@" + frame
